@@ -43,3 +43,9 @@ claim("C13",
 claim("C14",
       "Theorems: the generated length window is the documented one (10 < bytes <= 256); every reported literal lies in it; each (value, position) is reported once, also for literals cloned into hook arguments; nothing under require('<lit>')/new RegExp('<lit>') is reported; disabled => no report (induction over the tree). On the code: the implementation's report must equal the extracted collector applied to the INPUT tree (value, 1-based line, column, name) and the collector must find the same literals in the output trees of model and implementation.",
       NOTE + "lengths in UTF-8 bytes, columns in code points; only string-literal expressions count (module sources and string keys are not expressions).", TECH, "DESIGN.md section 5 (C14)")
+claim("C08",
+      "Theorems: the program keeps its root (Script/Module) tag; the block visitor keeps every node kind; the operation visitor keeps every kind other than the instrumented operations themselves (all statements, declarations, patterns, literals) at every depth; injected sequences are parenthesised. On the code: every accepted modified output of 150 real library files, the repository's resources and generated programs must re-parse with the rewriter's own parser to the printed tree and the same kind, compile in V8 as script/module like the input, and end with the trailer.",
+      NOTE + "partial: 'the printed text parses back to the tree' is swc's printer contract, exercised on every case, not proved.", TECH, "DESIGN.md section 5 (C08)")
+claim("C16",
+      "Theorem: in the model a rewriter's only state is its configuration, so the n-th result of any history equals a fresh single call (thin by construction). The property is carried by the history correspondence: every call of seeded histories (modified / not-modified / syntax-error / cancelled, several files, source-map comments with chaining, repeated calls, second and similar rewriters in the same process) on the real code is compared with the same call made alone in a fresh process, and the history is repeated in another process.",
+      NOTE + "the theorem says nothing about process-level state of the Rust code (thread-locals, statics, swc globals): that is what the history runs exercise.", TECH, "DESIGN.md section 5 (C16)")
